@@ -1,12 +1,12 @@
 package props
 
 import (
-	"syscall"
 	"context"
 	"errors"
 	"fmt"
 	"sort"
 	"strings"
+	"syscall"
 	"time"
 
 	pkgerrors "github.com/pkg/errors"
@@ -31,15 +31,15 @@ type c05Fault struct {
 type c05Pool struct {
 	// BlockingAggr: Report blocks while the aggregator's queue is full, as phout's does
 	BlockingAggr bool
-	Inst        int
-	Tokens      int
-	PerInstance bool
-	Items       int // -1 unlimited
-	ShotDur     time.Duration
-	Closable    bool
-	Fault       c05Fault
-	QLen        int
-	ProvBlock   bool
+	Inst         int
+	Tokens       int
+	PerInstance  bool
+	Items        int // -1 unlimited
+	ShotDur      time.Duration
+	Closable     bool
+	Fault        c05Fault
+	QLen         int
+	ProvBlock    bool
 }
 
 func (p c05Pool) String() string {
@@ -162,18 +162,18 @@ func runC05(r *R) {
 
 	const G = 10 * time.Second
 	var (
-		rts      []*c05PoolRT
-		runErr   error
-		runAt    time.Duration
-		waitAt   time.Duration = -1
-		waitSq   uint64
-		t0       time.Time
-		metrics  engine.Metrics
-		cancelT  time.Duration = -1
-		cancelSq uint64
+		rts          []*c05PoolRT
+		runErr       error
+		runAt        time.Duration
+		waitAt       time.Duration = -1
+		waitSq       uint64
+		t0           time.Time
+		metrics      engine.Metrics
+		cancelT      time.Duration = -1
+		cancelSq     uint64
 		cancelDoneT  time.Duration = -1
 		cancelDoneSq uint64
-		runSq    uint64
+		runSq        uint64
 	)
 	res := r.Sim(simrt.Config{Horizon: 2 * time.Hour, Grace: 30 * time.Second, Stalls: stalls, StallMax: time.Second, MaxSteps: 150000}, false, func() {
 		t0 = time.Now()
